@@ -142,7 +142,7 @@ func EInner(r *rand.Rand) Num {
 func GNum(r *rand.Rand) Num {
 	switch r.Intn(12) {
 	case 0:
-		return N([]string{"0.1", "0.2", "0.3", "2.675", "1.005", "0.125", "0.0005", "0.0025", "0.005", "0.015", "1e-3", "3.333", "123456.789", "123456.7895", "0", "1", "-0.1", "1e2", "2.5e-1", "-1E1", "1e+2", "0.045", "0.995", "9.995", "99.995"}[r.Intn(25)])
+		return N([]string{"0.1", "0.2", "0.3", "2.675", "1.005", "0.125", "0.0005", "0.0025", "0.005", "0.015", "1e-3", "3.333", "123456.789", "123456.7895", "0", "1", "-0.1", "1e2", "2.5e-1", "-1E1", "1e+2", "0.045", "0.995", "9.995", "99.995", "010", "0755", "-012", "007.5"}[r.Intn(29)])
 	case 1:
 		return N(fmt.Sprintf("%d", r.Intn(2000)-300))
 	case 2:
